@@ -110,6 +110,19 @@ PROPS = {
                 "12 token paths per schema: random valid walks, then truncated / extended by one or two tokens / one token replaced by a foreign node name, a choice or case name, junk, or a value of another type / "
                 "a token inserted or deleted; each validated with and without AllowIncompletePaths; compared: ok or (error tag, error path, bad element, message class) with the model, and (index of the offending token, reason) with the specification",
     },
+    "C18": {
+        "streams": {"ydata": {"quick": 3000, "thorough": 150000}},
+        "trusted": ["Go map iteration decides the order of reported errors and of appended defaults: both sides are compared as sorted lists (multisets)",
+                    "the canonical form of an error (kind, path, node name / entry names) is extracted from the message text by the harness"],
+        "modelled": ["must / when / leafref checks during validation are not part of this model (no such statements are generated)",
+                     "a list whose size violates min/max is reported as such and its entries are not examined further (code and specification)",
+                     "data in two cases of one choice at once is generated rarely; the validator has no rule for it and none is specified",
+                     "the equality of the decoration with the specification of defaults in use, idempotence and the unique check are compared by correspondence, not proved"],
+        "rule": "random schemas (non-presence/presence containers nested to depth 2-4, single-key lists with min/max-elements, ordered-by, unique sets over direct and descendant leaves, mandatory leaves, "
+                "leaves with defaults, leaf-lists with min/max, choices — mandatory or with a default case — with 1-3 cases nested inside cases) compiled by the real compiler, with a random data tree "
+                "(inclusion probability 30/55/80/95 %, 0-3 list entries, values from small sets so that unique collisions occur, empty-string values); compared: the multiset of ValidateSchema errors "
+                "(mandatory / choice / cardinality / unique with path), the canonical walk of AddDefaults(schema, data), and whether decorating twice equals decorating once",
+    },
     "C04": {
         "streams": {"xsmall": {"quick": 1, "thorough": 1, "spec_proj": "accept"},
                     "xfuzz": {"quick": 30000, "thorough": 1000000, "spec_proj": "accept"}},
